@@ -89,7 +89,8 @@ Proof. intro n. unfold zpos. rewrite map_length, seq_length. reflexivity. Qed.
 Lemma index_mask_len : forall n ix m, index_mask n ix = Some m -> List.length m = n.
 Proof.
   intros n ix m. destruct ix; simpl.
-  - destruct (Nat.eqb_spec (List.length m0) n); intro H; inversion H; subst; auto.
+  - destruct (Nat.eqb_spec (List.length m0) n); [intro H; inversion H; subst; auto|].
+    destruct m0 as [|b0 [|? ?]]; intro H; inversion H. apply repeat_length.
   - destruct (index_ok _ _); intro H; inversion H. rewrite map_length. apply length_zpos.
   - destruct (slice_adjust _ _ _ _) as [[[? ?] ?]|]; intro H; inversion H. rewrite map_length. apply length_zpos.
   - destruct (forallb _ _); intro H; inversion H. rewrite map_length. apply length_zpos.
